@@ -27,7 +27,7 @@ META = {
             'Modelled, not verified: '
             'QRegularExpression/PCRE2 for the LINE regex only (modelled as: last "=", ASCII \\s trimming, lazy name + optional suffix), '
             'QString::replace/split/at/size (lists of UTF-16 code units; the indices p,t,star,mark of wildcardMatch are represented by list '
-            'suffixes), QString::fromUtf8 of the category. The object model has no state besides the rule list: the translator pins that CategoryFilter has the one data member m_rules, no mutable member and no writable static. Outside the model: ill-formed UTF-16 in rules (lone surrogates), NUL in rule names.',
+            'suffixes), QString::fromUtf8 of the category. The translator reads const locals as their initialisers, a guard-with-continue as the positive test, the type test before the pattern test as the same conjunction, and a loop from the end of the list returning at the first match as shape LastFromBack (proved equal to the forward loop: C15_backward_loop_is_last_match_wins). The object model has no state besides the rule list: the translator pins that CategoryFilter has the one data member m_rules, no mutable member and no writable static. Outside the model: ill-formed UTF-16 in rules (lone surrogates), NUL in rule names.',
     'design_ref': 'DESIGN.md section 4, C15',
     'engine': 'coq+extraction+harness',
 }
@@ -313,9 +313,23 @@ def load_corpus():
     for p in sorted(_glob.glob(os.path.join(CORPUS, '*.json'))):
         try:
             d = json.load(open(p))
-            for c in d.get('cases', [d]):
+            for c in d.get('cases', [] if 'histories' in d else [d]):
                 out.append((c['rules'], list(c['categories'])))
         except Exception as e:      # a broken corpus file must not pass silently
+            raise RuntimeError('corpus file %s unreadable: %r' % (p, e))
+    return out
+
+
+def load_corpus_histories():
+    """recorded histories (rules, categories, query list); each is replayed under every storage mode"""
+    out = []
+    for p in sorted(_glob.glob(os.path.join(CORPUS, '*.json'))):
+        try:
+            for h in json.load(open(p)).get('histories', []):
+                qs = [tuple(int(x) for x in q.split(':')) for q in h['queries']]
+                for st in ([h['storage']] if 'storage' in h else sorted(set(STORAGE))):
+                    out.append(((h['rules'], list(h['categories'])), qs, st))
+        except Exception as e:
             raise RuntimeError('corpus file %s unreadable: %r' % (p, e))
     return out
 
@@ -547,7 +561,7 @@ def run():
             if x != y and b != '':
                 dis_model.append((case[0], cat, x, y))
             if '0' in z or len(z) != 5:
-                falsified.append((case[0], cat, x, z))
+                falsified.append((case[0], cat, x, z, case[1]))
 
     ph['python_statistics'] = round(_t.time() - t0, 1); t0 = _t.time()
 
@@ -597,21 +611,30 @@ def run():
                  rep, kind=kind)
         return kind, cls
 
+    # a falsified answer of the batch run that a fresh object asked about that one category does not repeat depends on
+    # what the object was asked before (the harness puts all categories of a line to one object): such failures are left
+    # to the history pass below, which shrinks histories instead of single questions
+    confirmed = 0
     if falsified:
         size = lambda f: (len(split_pieces(f[0])), len(f[0]) + len(f[1]))
+        falsified = [f for f in sorted(falsified, key=size)]
+        in_isolation = lambda fs: next((f for f in fs[:6] if still_bad(f[0], f[1])), None)
         plain = [f for f in falsified if '\n' not in f[1]]
         with_lf = [f for f in falsified if '\n' in f[1]]
         seen = set()
-        if plain:                       # a failure that has nothing to do with LF is reported first
-            f = min(plain, key=size)
+        f = in_isolation(plain)
+        if f:                           # a failure that has nothing to do with LF is reported first
             seen.add(report(f[0], f[1], len(falsified)))
+            confirmed += 1
         # categories with LF: the two faces of the "^...$" defect are reported separately; anything else as 'verdict'
         final_lf = [f for f in with_lf if f[1].endswith('\n')]
         inner_lf = [f for f in with_lf if not f[1].endswith('\n')]
         for group in (final_lf, inner_lf):
-            if group:
-                f = min(group, key=size)
-                seen.add(report(f[0], f[1], len(falsified), only_lf=bool(plain)))
+            f = in_isolation(group)
+            if f:
+                k, _ = report(f[0], f[1], len(falsified), only_lf=bool(confirmed))
+                seen.add(k)
+                confirmed += (k == 'lf_in_category' or not confirmed)
     if dis_model:
         r, c, x, y = min(dis_model, key=lambda f: len(f[0]) + len(f[1]))
         chk.broke('correspondence: model (with the translated configuration) and CategoryFilter differ on %d (rules, category) pairs, '
@@ -626,6 +649,10 @@ def run():
     qhist = collections.Counter()
     seqs = [gen_queries(rng, len(c[1]), qhist) for c in seq_cases]
     stor = [rng.choice(STORAGE) for _ in seq_cases]
+    corpus_h = load_corpus_histories()
+    seq_cases = [h[0] for h in corpus_h] + seq_cases
+    seqs = [h[1] for h in corpus_h] + seqs
+    stor = [h[2] for h in corpus_h] + stor
     slines = [seq_line(c[0], c[1], q, st) for c, q, st in zip(seq_cases, seqs, stor)]
     rcs, out_s, err_s = vlib.run_lines(impl, slines)
     out_s = out_s + [''] * (len(slines) - len(out_s))
@@ -681,7 +708,7 @@ def run():
         mk = vlib.run_lines(model, [l + ' ' + v], ['oracle'])[1]
         return v, (mk[0].partition(' ')[0] if mk else '')
 
-    if seq_bad and not falsified:
+    if seq_bad and not confirmed:
         # the fixed-order pass found nothing: the failure needs a particular history / storage of the names
         # the reused-buffer storages first: they do not depend on what the allocator does, so the replay is deterministic
         order = lambda f: (f[3] in ('H/', 'C/'), len(f[2]), len(f[0]))
@@ -725,6 +752,22 @@ def run():
                  'ordered rule evaluation prescribes %s%s' % (rules, k + 1, cats[ci], TYPES[ti], 'pass' if v[k] == '1' else 'drop',
                                                            'pass' if alone_v == '1' else 'drop', 'drop' if v[k] == '1' else 'pass', where),
                  rep, kind=kind)
+    if falsified and not confirmed and not seq_bad:
+        # falsified in the batch run, not by a fresh object per category, and the generated histories are all answered as specified:
+        # report the batch line itself (one object asked about its categories in order, five types each)
+        f = falsified[0]
+        c = (f[0], f[4])
+        _, o, _ = run_impl(impl, [c])
+        v = o[0] if o and well_formed(c, o[0]) else ','.join('?????' for _ in c[1])
+        mk = run_oracle(model, [c], [v])
+        if mk and '0' in mk[0]:
+            chk.fail('one CategoryFilter(%r) object asked about the categories %r in this order (five types each) answers %s; ordered rule evaluation '
+                     'prescribes %s; a fresh object per category answers as specified' % (c[0], c[1], v, run_model(model, [c], 'spec')[0]),
+                     {'kind': 'order_dependent', 'rules': c[0], 'categories': c[1], 'implementation_verdicts': v,
+                      'types_order': 'debug warning critical fatal info'}, kind='order_dependent')
+        else:
+            chk.broke('%d answers of the batch run were not as specified but neither a fresh object nor a re-run of the line repeats them' % len(falsified),
+                      {'kind': 'unreproducible', 'rules': c[0], 'categories': c[1]})
     if seq_dis and not seq_bad and not falsified:
         r, cs, q, st, v, mo = min(seq_dis, key=lambda f: (len(f[2]), len(f[0])))
         chk.broke('correspondence: object model (object_answers src_cfg) and one CategoryFilter object differ on %d histories' % len(seq_dis),
@@ -798,7 +841,7 @@ def run():
                     'corpus_cases': n_corpus, 'fixed_cases': n_fixed,
                     'disagreements_model_vs_impl': len(dis_model), 'oracle_evaluated_on_impl_verdicts': evaluations,
                     'oracle_falsified': len(falsified),
-                    'query_sequences': {'filter_objects': len(seq_cases), 'queries': seq_queries,
+                    'query_sequences': {'filter_objects': len(seq_cases), 'corpus_histories': len(corpus_h), 'queries': seq_queries,
                                         'objects_with_a_falsified_answer': len(seq_bad), 'answers_differing_from_the_first_answer_to_the_same_query': seq_inconsistent,
                                         'histories_where_object_model_and_implementation_differ': len(seq_dis),
                                         'history_shape_histogram': dict(qhist), 'name_storage_and_address_reuse_histogram': dict(addr_hist),
